@@ -96,13 +96,14 @@ def main():
     elif mode == 'translate':
         scratch = Path(sys.argv[2])
         from proof_generation.metamath import translate
-        for mm in sys.argv[3:]:
+        for spec in sys.argv[3:]:
+            mm, target = spec.rsplit('::', 1)
             d = scratch / 'tr'
             d.mkdir(parents=True, exist_ok=True)
             for f in d.iterdir():
                 f.unlink()
             old = sys.argv
-            sys.argv = ['translate', mm, str(d), 'goal']
+            sys.argv = ['translate', mm, str(d), target]
             try:
                 with redirect_stdout(io.StringIO()):
                     translate.main()
